@@ -50,6 +50,7 @@ pub mod _benchable {
 #[allow(missing_docs)]
 pub mod _verif {
     pub use crate::simd::_verif::*;
+    pub use crate::iter::_verif_counters as counters;
 
     pub fn is_method_token(b: u8) -> bool {
         super::is_method_token(b)
@@ -1253,6 +1254,12 @@ fn parse_headers_iter_uninit<'a>(
             // empty.
             value_slice
         };
+
+        #[cfg(httparse_verif)]
+        crate::iter::_verif_counters::TRIMMED.fetch_add(
+            value_slice.len() - header_value.len() + 1,
+            core::sync::atomic::Ordering::Relaxed,
+        );
 
         *uninit_header = MaybeUninit::new(Header {
             name: header_name,
